@@ -1,0 +1,7 @@
+//go:build !verif
+
+package dvid
+
+// VerifYield marks a point between the read and the write of a read-modify-write sequence.
+// It does nothing unless the verif build tag is set.
+func VerifYield(site string) {}
